@@ -19,6 +19,9 @@ DEEP = ["div", "b", "rt", "p", "li", "dd", "option", "optgroup", "table", "td", 
         "applet", "marquee", "object", "caption", "colgroup", "mi", "foreignObject", "desc", "title", "textarea", "pre"]
 
 
+AFTER_FRAMESET = ("noframes", "a", "b", "big", "code", "em", "font", "i", "nobr", "s", "small", "strike", "strong", "tt", "u")
+
+
 def skeleton_ok(forest):
     """doctype? comments; exactly one html element; its element children are head then body|frameset; only
     whitespace text directly under html"""
@@ -35,10 +38,10 @@ def skeleton_ok(forest):
             return "doctype after html"
     kids = els[0][4]
     kel = [k[2] for k in kids if k[0] == "E"]
-    # after a frameset the standard puts a later <noframes> directly under html ("after frameset" mode): the
-    # skeleton is head, then body or frameset, then only such noframes elements
-    if len(kel) < 2 or kel[0] != "head" or kel[1] not in ("body", "frameset") or \
-            any(k != "noframes" for k in kel[2:]) or (kel[1] == "body" and len(kel) > 2):
+    if len(kel) > 2 and kel[0] == "head" and kel[1] == "frameset" and all(k in AFTER_FRAMESET for k in kel[2:]):
+        # the standard's own "after frameset" rules put these directly under html: see the listed finding
+        return "after-frameset: children of html: %r" % kel
+    if len(kel) != 2 or kel[0] != "head" or kel[1] not in ("body", "frameset"):
         return "children of html: %r" % kel
     for k in kids:
         if k[0] == "T" and k[1].strip("\t\n\x0c\r ") != "":
@@ -118,7 +121,8 @@ class C03(Plugin):
         for m in ["<table><math><html>", "<table><svg><html>", "<div>" + "<rt>" * 3000 + "</div>", "&#" + "9" * 5000 + ";",
                   "<pre>\n\nx", "<frameset><math><html>", "<select><svg><html>", "<table><svg><body><td>", "<svg><html><body>",
                   "<math><head><title>", "<table><caption><svg><table>", "<html><frameset></frameset></html>x",
-                  "</html><!--c-->x", "<body></body>x<!--c-->", "<template><frameset>", "<table><td><svg><tr>", ""]:
+                  "</html><!--c-->x", "<body></body>x<!--c-->", "<b><frameset></frameset></html> ", "<frameset></frameset><noframes>x",
+                  "<a><i><frameset></frameset> x", "<svg><html><desc><frameset>", "<template><frameset>", "<table><td><svg><tr>", ""]:
             for tb in ("etree", "dom"):
                 out.append({"k": 1, "tree": tb, "ns": True, "fragment": False, "container": "div", "scripting": False, "markup": m})
                 out.append({"k": 1, "tree": tb, "ns": False, "fragment": True, "container": "table", "scripting": True, "markup": m})
@@ -222,7 +226,7 @@ class C03(Plugin):
         if out[0] == 1:
             return [(self.crash_class(out[1]), out[1])]
         if out[1] not in ("ok", "fragment"):
-            return [("skeleton-broken", out[1])]
+            return [("skeleton-after-frameset" if out[1].startswith("after-frameset:") else "skeleton-broken", out[1])]
         return []
 
     @staticmethod
@@ -232,7 +236,14 @@ class C03(Plugin):
         return "exception:" + msg.split(":")[0] + ":" + msg.split(" at ")[-1].split(":")[1] if " at " in msg else "exception"
 
     def classify(self, cls, case, detail):
+        if cls == "skeleton-after-frameset":
+            return "C03-after-frameset-children"
         return None
+
+    def known_witnesses(self):
+        return {"C03-after-frameset-children":
+                {"k": 1, "tree": "etree", "ns": True, "fragment": False, "container": "div", "scripting": False,
+                 "markup": "<b><frameset></frameset></html> "}}
 
     def nontrivial_key(self, case, out):
         if case["k"] == 0:
